@@ -108,7 +108,9 @@ def record_result(mid, own, caught):
         data = json.load(open(p))
     except Exception:
         data = {}
-    if caught:
+    if caught and caught[0] == "neutralised":
+        data[mid] = {"property": own, "status": "neutralised", "evidence": caught[1][:200]}
+    elif caught:
         data[mid] = {"property": own, "status": "killed", "by_check": caught[0], "evidence": caught[1][:200], "wall_s": round(caught[2])}
     else:
         data[mid] = {"property": own, "status": "survived"}
@@ -148,6 +150,16 @@ def main(arg=None):
             props = meta.get("detect_with") or [meta["property"]]
             d = make_copy(mid)
             cp = subprocess.run(["patch", "-p1", "-s", "-d", d, "-i", os.path.join(sd, m, "patch.diff")], capture_output=True, text=True)
+            if cp.returncode == 0 and meta.get("neutralised_by"):
+                # a later repair of /repo took away what this change needed: if its own
+                # demonstration passes on the changed copy, it breaks nothing any more
+                dm = subprocess.run(["/venv/bin/python", "demo.py"], cwd=os.path.join(sd, m), env=dict(os.environ, PYTHONPATH=os.path.join(d, "src"), LD_PRELOAD=""), capture_output=True, text=True, timeout=600)
+                if dm.returncode == 0:
+                    print(f"MUTANT {mid}: NEUTRALISED ({meta['neutralised_by'][:80]}...): its demonstration passes on the changed copy")
+                    results.append((mid, props[0], "neutralised"))
+                    record_result(mid, props[0], ("neutralised", "demonstration passes on the repaired tree with the change applied", 0))
+                    shutil.rmtree(d, ignore_errors=True)
+                    continue
             if cp.returncode != 0:
                 print(f"MUTANT {mid}: patch does not apply: {cp.stdout[-300:]} {cp.stderr[-300:]}")
                 results.append((mid, props[0], "stale"))
@@ -178,6 +190,6 @@ def main(arg=None):
             print(f"MUTANT {mid}: SURVIVED quick checks {props}")
             results.append((mid, props[0], "survived"))
         sys.stdout.flush()
-    k = sum(1 for r in results if r[2] == "killed")
-    print(f"mutants: {k}/{len(results)} killed; survived: {[r[0] for r in results if r[2] == 'survived']}; stale: {[r[0] for r in results if r[2] == 'stale']}")
+    k = sum(1 for r in results if r[2] in ("killed", "neutralised"))
+    print(f"mutants: {k}/{len(results)} killed or neutralised; survived: {[r[0] for r in results if r[2] == 'survived']}; stale: {[r[0] for r in results if r[2] == 'stale']}")
     return 0 if k == len(results) else 1
